@@ -246,7 +246,11 @@ def _check_settings(spec, cfg, t, exp, styles, got_cues, acc, cc, idx):
       if line is None or line[0] != "pct":
         acc.violation("C07.settings.line", "missing", dict(cc, t=t), observed=c.settings, expected=f"line:{float(want_line)}%,{want_align}")
         continue
-      if abs(F(line[1]) - want_line) > F(1, 2) or not 0 <= F(line[1]) <= 100:
+      if not 0 <= F(line[1]) <= 100:
+        # the WebVTT grammar has percentages in 0..100 only: a region edge outside the root container is written as the nearest edge
+        acc.violation("C07.settings.line", "percentage-out-of-range", dict(cc, t=t), observed=c.settings,
+                      expected=f"line:{float(min(max(want_line, F(0)), F(100)))}%")
+      elif abs(F(line[1]) - min(max(want_line, F(0)), F(100))) > F(1, 2):
         acc.violation("C07.settings.line", f"value,displayAlign={da}", dict(cc, t=t), observed=c.settings, expected=f"line:{float(want_line)}%")
       if (line[2] or "start") != want_align:
         acc.violation("C07.settings.line", f"alignment,displayAlign={da}", dict(cc, t=t), observed=c.settings, expected=want_align)
